@@ -433,11 +433,11 @@ func checkScopeMiddleware(w *World, r *Report, m string, p *packages.Package) {
 		switch {
 		case f.csCount != 1:
 			bad = fmt.Sprintf("%d CreateScope call sites in the per-request function", f.csCount)
-		case rcvObj != f.provider || f.provider == nil:
+		case (rcvObj != f.provider || f.provider == nil) && !selectedProvider(info, f, rcvObj, 2):
 			bad = "CreateScope is called on " + exprStr(rcv) + ", not on the provider passed to ScopeMiddleware"
 		case fl.InLoop(fl.NodeContaining(csSite.Pos())):
 			bad = "CreateScope is called inside a loop"
-		case len(f.csCall.Args) != 1 || !isRequestContext(info, f.csCall.Args[0], ctxParams):
+		case len(f.csCall.Args) != 1 || !(isRequestContext(info, f.csCall.Args[0], ctxParams) || derivedRequestContext(info, f.lit.Body, f.csCall.Args[0], ctxParams)):
 			bad = "the argument of CreateScope (" + exprStr(f.csCall.Args[0]) + ") is not the request's own context"
 		}
 		r.Check(bad == "", "P1", pre+"#create", f.csCall.Pos(), true, "exactly one CreateScope(request context) on the captured provider, outside any loop", bad)
@@ -592,7 +592,15 @@ func checkScopeMiddleware(w *World, r *Report, m string, p *packages.Package) {
 			// next(c): a captured function-typed parameter of an enclosing literal
 			if o := info.Uses[fun]; o != nil {
 				if _, isSig := o.Type().Underlying().(*types.Signature); isSig && (f.outer[o] || !(f.lit.Pos() <= o.Pos() && o.Pos() < f.lit.End())) {
-					if _, isVar := o.(*types.Var); isVar && o != f.cfg {
+					// the wrapped handler is handed the request; a captured function that takes none of the
+					// request's values (an id generator, a clock) is not the next handler
+					takesRequest := false
+					for _, a := range c.Args {
+						if root := rootIdent(a); root != nil && (f.params[info.Uses[root]] || f.outer[info.Uses[root]]) {
+							takesRequest = true
+						}
+					}
+					if _, isVar := o.(*types.Var); isVar && o != f.cfg && takesRequest {
 						return true
 					}
 				}
@@ -1644,4 +1652,124 @@ func returnsTrueOnlyAfterAssertion(info *types.Info, t *FuncInfo) bool {
 		}
 	}
 	return good && n > 0
+}
+
+// derivedRequestContext: e is a local every assignment of which is the request's
+// own context or a context derived from that same local / the request context by
+// a context.With… call (a timeout, a value): still the request's context, with
+// something added.
+func derivedRequestContext(info *types.Info, body ast.Node, e ast.Expr, params map[types.Object]bool) bool {
+	o, ok := objOf(info, e).(*types.Var)
+	if !ok || o.IsField() {
+		return false
+	}
+	okAll, any := true, false
+	judge := func(rhs ast.Expr) {
+		any = true
+		rhs = unparen(rhs)
+		if isRequestContext(info, rhs, params) {
+			return
+		}
+		if c, isC := rhs.(*ast.CallExpr); isC {
+			cal := callee(info, c)
+			if cal != nil && cal.Pkg() != nil && cal.Pkg().Path() == "context" && strings.HasPrefix(cal.Name(), "With") && len(c.Args) >= 1 {
+				if objOf(info, c.Args[0]) == o || isRequestContext(info, c.Args[0], params) {
+					return
+				}
+			}
+		}
+		okAll = false
+	}
+	ast.Inspect(body, func(x ast.Node) bool {
+		switch st := x.(type) {
+		case *ast.AssignStmt:
+			if len(st.Rhs) == 1 && len(st.Lhs) >= 1 && objOf(info, st.Lhs[0]) == o {
+				judge(st.Rhs[0]) // ctx, cancel := context.WithTimeout(…): the first result
+				return true
+			}
+			if len(st.Lhs) == len(st.Rhs) {
+				for i, l := range st.Lhs {
+					if objOf(info, l) == o {
+						judge(st.Rhs[i])
+					}
+				}
+			}
+		case *ast.ValueSpec:
+			for i, nm := range st.Names {
+				if info.Defs[nm] == o && i < len(st.Values) {
+					judge(st.Values[i])
+				}
+			}
+		}
+		return true
+	})
+	return okAll && any
+}
+
+// selectedProvider: o is a local that starts as the provider passed to
+// ScopeMiddleware and may be replaced by what a configured callback selects for
+// this request (source := provider; if s := cfg.ScopeSource(r); s != nil { source = s }).
+func selectedProvider(info *types.Info, f *mwFacts, o types.Object, depth int) bool {
+	if o == nil || f.provider == nil || depth < 0 {
+		return false
+	}
+	okAll, sawProvider := true, false
+	judge := func(rhs ast.Expr) {
+		rhs = unparen(rhs)
+		ro := objOf(info, rhs)
+		switch {
+		case ro == f.provider:
+			sawProvider = true
+		case ro != nil && ro != o && callbackResult(info, f, ro):
+		default:
+			if c, isC := rhs.(*ast.CallExpr); isC && isCfgCallback(info, f, c) {
+				return
+			}
+			okAll = false
+		}
+	}
+	ast.Inspect(f.lit.Body, func(x ast.Node) bool {
+		if as, ok := x.(*ast.AssignStmt); ok && len(as.Lhs) == len(as.Rhs) {
+			for i, l := range as.Lhs {
+				if objOf(info, l) == o {
+					judge(as.Rhs[i])
+				}
+			}
+		}
+		return true
+	})
+	return okAll && sawProvider
+}
+
+// isCfgCallback: a call of a function-typed field of the configuration.
+func isCfgCallback(info *types.Info, f *mwFacts, c *ast.CallExpr) bool {
+	sel, ok := unparen(c.Fun).(*ast.SelectorExpr)
+	if !ok || f.cfg == nil || objOf(info, sel.X) != f.cfg {
+		return false
+	}
+	fv := fieldOf(info, sel)
+	if fv == nil {
+		return false
+	}
+	_, isSig := fv.Type().Underlying().(*types.Signature)
+	return isSig
+}
+
+// callbackResult: ro is a local bound (once) to the result of a configuration callback.
+func callbackResult(info *types.Info, f *mwFacts, ro types.Object) bool {
+	n, good := 0, true
+	ast.Inspect(f.lit.Body, func(x ast.Node) bool {
+		if as, ok := x.(*ast.AssignStmt); ok && len(as.Lhs) == len(as.Rhs) {
+			for i, l := range as.Lhs {
+				if objOf(info, l) == ro {
+					n++
+					if c, isC := unparen(as.Rhs[i]).(*ast.CallExpr); !isC || !isCfgCallback(info, f, c) {
+						good = false
+					}
+				}
+			}
+		}
+		return true
+	})
+	return n == 1 && good
 }
